@@ -56,7 +56,9 @@ Caps ==
     luv |-> Lin \cup LabFam, lchuv |-> Cyl \cup {"Saturate"}, hsluv |-> Cyl \cup {"Saturate"},
     oklab |-> Lin \cup LabFam, oklch |-> Cyl, okhsl |-> Cyl \cup {"Saturate"}, okhsv |-> Cyl \cup {"Saturate"},
     okhwb |-> Cyl, linsrgb |-> Lin, srgb |-> Lin, hsl |-> Cyl \cup {"Saturate"}, hsv |-> Cyl \cup {"Saturate"},
-    hwb |-> Cyl, linluma |-> Lin, srgbluma |-> Lin ]
+    hwb |-> Cyl, linluma |-> Lin, srgbluma |-> Lin,
+    \* outside the XYZ conversion group, built from the same operator macros
+    cam16ucsjab |-> Lin \cup LabFam, cam16ucsjmh |-> Cyl \cup {"Saturate"}, lmsvk |-> Lin \ {"Lighten"} ]
 
 IsHwb(node) == node \in {"hwb", "okhwb"}
 (* components moved by Lighten / Saturate ("the affected component") *)
